@@ -150,7 +150,67 @@ func c11Oracle(c c11Case) []int {
 	return out
 }
 
+// synTemplates: what gopki itself parses and produces for a forest of this shape (configurations with all defaults
+// filled in, genuine certificates, keys and a request), so that the synthetic database hands the planner nothing a
+// real database could not hand it. Cached per issuer vector.
+type synTemplate struct {
+	cfg config.CertificateContent
+	art db.BuildArtifact
+}
+
+var (
+	synTemplateCache = map[string][]synTemplate{}
+	synRequest       *cert.CertificateRequest
+)
+
+func synTemplates(c c11Case) []synTemplate {
+	key := ""
+	for _, e := range c.Ents {
+		key += fmt.Sprint(e.Issuer, ",")
+	}
+	if t, ok := synTemplateCache[key]; ok {
+		return t
+	}
+	var w World
+	for i, e := range c.Ents {
+		ent := core.Entity{File: fmt.Sprintf("e%d.yaml", i), Subject: []core.RDN{{Key: "CN", Value: fmt.Sprintf("C11 syn e%d", i)}}}
+		if e.Issuer >= 0 {
+			ent.Issuer = fmt.Sprintf("e%d", e.Issuer)
+		}
+		w.Ents = append(w.Ents, ent)
+	}
+	d := w.Dir()
+	if res := core.Run(d, core.FlagAll); !res.OK() {
+		panic("harness: template run failed: " + res.String())
+	}
+	dbase := filesystem.NewFilesystemDatabase(&core.MemFS{D: d})
+	if err := dbase.Open(); err != nil {
+		panic("harness: template open failed: " + err.Error())
+	}
+	defer dbase.Close()
+	var out []synTemplate
+	for i := range c.Ents {
+		cfg, err1 := dbase.GetConfig(fmt.Sprintf("e%d", i))
+		art, err2 := dbase.GetBuildArtifact(fmt.Sprintf("e%d", i))
+		if err1 != nil || err2 != nil || cfg == nil || art == nil || art.Certificate == nil || art.PrivateKey == nil {
+			panic(fmt.Sprintf("harness: template incomplete for e%d: %v %v", i, err1, err2))
+		}
+		out = append(out, synTemplate{cfg: *cfg, art: *art})
+	}
+	if synRequest == nil {
+		_, csr := goCertAndCSRFixed()
+		pc, err := cert.ReadPem(core.PemBlock("CERTIFICATE REQUEST", csr))
+		if err != nil || pc.Request == nil {
+			panic("harness: cannot read the template request")
+		}
+		synRequest = pc.Request
+	}
+	synTemplateCache[key] = out
+	return out
+}
+
 func buildSynDB(c c11Case) (*synDB, []string) {
+	tmpl := synTemplates(c)
 	now := time.Now()
 	base := now.Add(-5000 * time.Hour)
 	s := &synDB{ents: map[string]*synEntity{}, subs: map[string][]string{}}
@@ -159,9 +219,9 @@ func buildSynDB(c c11Case) (*synDB, []string) {
 		names[i] = fmt.Sprintf("e%d", i)
 	}
 	for i, st := range c.Ents {
-		cfg := &config.CertificateContent{Alias: names[i]}
+		cfgv := tmpl[i].cfg
+		cfg := &cfgv
 		if st.Issuer >= 0 {
-			cfg.Issuer = names[st.Issuer]
 			s.subs[cfg.Issuer] = append(s.subs[cfg.Issuer], names[i])
 		} else {
 			s.roots = append(s.roots, names[i])
@@ -182,15 +242,15 @@ func buildSynDB(c c11Case) (*synDB, []string) {
 		}
 		e := &synEntity{cfg: cfg}
 		if hasCert(st.Art) {
-			crt := &cert.Certificate{}
+			crt := *tmpl[i].art.Certificate
 			crt.TBSCertificate.Validity.NotAfter = notAfter
-			e.art.Certificate = crt
+			e.art.Certificate = &crt
 		}
 		switch st.Art {
 		case 1, 3:
-			e.art.PrivateKey = struct{}{}
+			e.art.PrivateKey = tmpl[i].art.PrivateKey
 		case 2:
-			e.art.Request = &cert.CertificateRequest{}
+			e.art.Request = synRequest
 		}
 		if st.Art != 0 {
 			e.meta.LastBuild = base.Add(time.Duration(100+50*st.ArtTime) * time.Minute)
